@@ -92,7 +92,7 @@ pub const C01: HistCheck = HistCheck {
     oracles: &[Oracle::Agg, Oracle::Panic],
     cfg: general,
     nontrivial: |f| (f.partial_fills + f.replenishments) >= 1 && f.op_on_touched_order_or_second_match(),
-    rule: "stateful histories (add / match / cancel / price move / quantity amend / price+quantity / replace / read / rebuild through 7 paths; all 7 order types; small and 64-bit-boundary quantity profiles incl. 0) interpreted on a real PriceLevel; after EVERY operation visible/hidden/count/total and the snapshot's figures are compared with the sums over iter_orders() and bounded by everything ever supplied. Non-trivial = the history has a match that partially fills or replenishes an order and a later operation (amend, cancel, move, another match, rebuild) on that same order; distinct = 64-bit hash of the history.",
+    rule: "stateful histories (add / match / cancel / price move / quantity amend / price+quantity / replace / read / rebuild through 7 paths; all 7 order types; small and 64-bit-boundary quantity profiles incl. 0) interpreted on a real PriceLevel; after EVERY operation visible/hidden/count/total and the snapshot's figures are compared with the sums over iter_orders() and bounded by everything ever supplied. The histories also contain bulk operations (n add+cancel pairs / n resting orders under fresh ids, n up to ~1030), pairs of amendments moving quantity between two orders, matches whose taker id is a pool id, generators restored at boundary counters, and in half of the runs every Arc the API returns is kept alive. Snapshot figures are checked at snapshot-type reads and at the end of each history. Non-trivial = the history has a match that partially fills or replenishes an order and a later operation (amend, cancel, move, another match, rebuild) on that same order; distinct = 64-bit hash of the history.",
     quick: 300_000,
     thorough: 12_000_000,
     twin_without_reads: false,
@@ -104,7 +104,7 @@ pub const C02: HistCheck = HistCheck {
     oracles: &[Oracle::Account, Oracle::Panic],
     cfg: no_rebuild,
     nontrivial: |f| f.sweep_multi || f.multi_round_same_order || f.second_match_on_partial,
-    rule: "stateful histories as C01 without rebuilds (one transaction-id generator per history); every match result is audited: executed+remaining==requested, is_complete<=>remaining==0, every transaction has quantity>0, the level price, the taker id, a maker resting at that moment (trace-driven model), the opposite side, a never-seen transaction id; lifetime fills of an order <= what it supplied (adjusted by amendments); filled_order_ids == makers that traded and are no longer listed. Plus MatchResult built incrementally (second generator). Non-trivial = a match that trades >=2 orders or the same order in >=2 rounds, or a second match on a previously partially filled order.",
+    rule: "stateful histories as C01 without rebuilds (one transaction-id generator per history); every match result is audited: executed+remaining==requested, is_complete<=>remaining==0, every transaction has quantity>0, the level price, the taker id, a maker resting at that moment (trace-driven model), the opposite side, a never-seen transaction id; lifetime fills of an order <= what it supplied (adjusted by amendments); filled_order_ids == makers that traded and are no longer listed. Plus MatchResult built incrementally (second generator: initial quantity and up to 12 appended transactions summing within it: remaining == initial - sum, is_complete <=> remaining == 0, executed_quantity() == sum after every append). The histories also contain bulk operations (n add+cancel pairs / n resting orders under fresh ids, n up to ~1030), pairs of amendments moving quantity between two orders, matches whose taker id is a pool id, generators restored at boundary counters, and in half of the runs every Arc the API returns is kept alive. Non-trivial = a match that trades >=2 orders or the same order in >=2 rounds, or a second match on a previously partially filled order.",
     quick: 300_000,
     thorough: 12_000_000,
     twin_without_reads: false,
@@ -116,7 +116,7 @@ pub const C04: HistCheck = HistCheck {
     oracles: &[Oracle::Priority, Oracle::Panic],
     cfg: c04_cfg,
     nontrivial: |f| f.match_with_3_resting && f.matches >= 2 && f.match_after_event,
-    rule: "stateful histories of adds, matches of all size kinds, cancels, re-adds of earlier ids, same-price amendments (positive quantities, all 7 types) ending in a draining match; ideal arrival ranks: fresh rank on add and on replenishment from hidden, kept on partial fill and same-price amend; at every transaction no other resting order with displayed quantity may have a smaller rank than the maker. Pairs explained by the listed known findings (KF-C04-1 waiting order was re-queued at the tail by an earlier match; KF-C04-2 the maker's id has a stale/duplicate ticket) are counted, everything else is a violation. Non-trivial = >=3 orders resting at some match, >=2 matches, one of them after a replenishment, an amendment or a re-add.",
+    rule: "stateful histories of adds, matches of all size kinds, cancels, re-adds of earlier ids, same-price amendments (positive quantities, all 7 types; bulk add+cancel churn up to ~1030 pairs; in the boundary profile sums may exceed 64 bits since this oracle never reads the aggregates) ending in a draining match; ideal arrival ranks: fresh rank on add and on replenishment from hidden, kept on partial fill and same-price amend; at every transaction no other resting order with displayed quantity may have a smaller rank than the maker. Pairs explained by the listed known findings (KF-C04-1 waiting order was re-queued at the tail by an earlier match; KF-C04-2 the maker's id has a stale/duplicate ticket) are counted, everything else is a violation. Non-trivial = >=3 orders resting at some match, >=2 matches, one of them after a replenishment, an amendment or a re-add.",
     quick: 300_000,
     thorough: 12_000_000,
     twin_without_reads: false,
@@ -141,7 +141,7 @@ pub const C06: HistCheck = HistCheck {
     oracles: &[Oracle::Term, Oracle::Panic],
     cfg: c06_cfg,
     nontrivial: |f| f.zero_display_at_match || f.three_round_match,
-    rule: "stateful histories with zero quantities allowed (zero-quantity adds, amend-to-0, reserve replenish amount 0), iceberg/reserve-heavy; every match_order runs under a budget of shared-memory steps derived from the number of resting orders, tickets and replenishment rounds a correct sweep needs (exceeding it = non-termination, detected without wall clock); after each match executed >= min(requested, displayed before) and remaining>0 implies no listed order displays quantity. Non-trivial = a match issued while an order with display 0 and hidden>0 rests, or a match with >=3 replenishments.",
+    rule: "stateful histories with zero quantities allowed (zero-quantity adds, amend-to-0, reserve replenish amount 0, bursts of up to 80 such orders, churn leaving up to ~1030 dead tickets), iceberg/reserve-heavy; every match_order runs under a budget of shared-memory steps derived from the number of resting orders, tickets and replenishment rounds a correct sweep needs (exceeding it = non-termination, detected without wall clock); after each match executed >= min(requested, displayed before) and remaining>0 implies no listed order displays quantity. Non-trivial = a match issued while an order with display 0 and hidden>0 rests, or a match with >=3 replenishments.",
     quick: 300_000,
     thorough: 12_000_000,
     twin_without_reads: false,
@@ -153,7 +153,7 @@ pub const C07: HistCheck = HistCheck {
     oracles: &[Oracle::Update, Oracle::Panic],
     cfg: c07_cfg,
     nontrivial: |f| f.update_on_touched_order,
-    rule: "stateful histories mixing all five update kinds (present/absent ids, same/other price) with adds, matches and read-only calls; cancel/move must return the model's current order field for field and remove only it; absent id => Ok(None) and identical fingerprint; same-price UpdatePrice => Err and identical fingerprint; same-price amend returns the order now listed (new display for Standard/PostOnly/Iceberg, either for the other four), others untouched; every read-only call leaves the fingerprint (price, aggregates, listing, statistics) unchanged; metamorphic twins: (1) the same history with all reads deleted must give identical results for every other operation; (2) the same history with an extra order added and removed again right away (cancel / move / price+quantity / replace to another price) at a generated point must give identical results for every other operation and the same final listing. Non-trivial = an update applied to an order after a partial fill or replenishment.",
+    rule: "stateful histories mixing all five update kinds (present/absent ids, same/other price) with adds, matches and read-only calls; cancel/move must return the model's current order field for field and remove only it; absent id => Ok(None) and identical fingerprint; same-price UpdatePrice => Err and identical fingerprint; same-price amend returns the order now listed (new display for Standard/PostOnly/Iceberg, either for the other four), others untouched; every read-only call leaves the fingerprint (price, aggregates, listing, statistics) unchanged; metamorphic twins, the first and third as *blind* replays of the recorded calls on fresh levels (no observation by the harness between calls): (1) all reads deleted => identical results for every other operation; (3) all reads but the last deleted => the last read returns the same content; (2) the same history with an extra order added and removed again right away (cancel / move / price+quantity / replace to another price) at a generated point must give identical results for every other operation and the same final listing. Non-trivial = an update applied to an order after a partial fill or replenishment.",
     quick: 240_000,
     thorough: 8_000_000,
     twin_without_reads: true,
